@@ -16,6 +16,8 @@ OBLIGATIONS = [
     (P + "segmentation_independent_fcgi", "FastCGI: segmentation independence for all byte streams, whole keep-alive connections"),
     (P + "http_buffer_eq_stream", "HTTP: read-ahead buffer + generated parser::step() with getc/ungetc + total_read_ + body drained once + keep-alive leftovers = stream-level result whenever header sections fit the 16 KiB cap"),
     (P + "segmentation_independent_http", "HTTP: segmentation independence for all byte streams whose header sections fit the cap (the unrestricted statement is false of the code and recorded as such)"),
+    (P + "limits_admit_wf", "the three 16 KiB limits regenerated from the source are the bound used in the well-formedness predicates (16384)"),
+    (P + "scgi_roundtrip", "SCGI round trip: WF request encoded by the peer, any segmentation -> exactly the peer's environment (pairs, order) and body stream reach the request layer"),
 ]
 OBLIGATIONS_FILE = os.path.join(HERE, "c01_obligations.json")
 if os.path.exists(OBLIGATIONS_FILE):
@@ -35,6 +37,13 @@ def gen_cases(c, scale):
             budget = 3 if len(enc[api]) < 20000 else 1
             for segs in segmentations(rng, enc[api], budget):
                 cases.append(Case(api, "hc", segs, absreq=(r, q, ck), tag="wf"))
+    # header sections up to the 16 KiB limits, arriving in several reads
+    for i in range(10 * scale):
+        r = gen_absreq(rng, bighdr=True)
+        enc, q, ck = encode_all(r, rng)
+        for api in APIS:
+            d = enc[api]
+            cases.append(Case(api, "hc", cut(d, random_cuts(rng, len(d), rng.choice([1, 2, 3, 6]))), absreq=(r, q, ck), tag="wf-bigheaders"))
     # every split point of a few short requests, per front-end
     for i in range(3 * scale):
         r = gen_absreq(rng)
